@@ -292,6 +292,8 @@ def make_descs(tier, seed, which, alt=False):
         yield dict(d, _kind="join", which=which)
         if which == "susp":
             yield dict(d, _kind="table", which=which)
+    if which == "susp" and not alt:
+        yield from syn_table_descs(tier, seed, which)
     if not alt:
         yield from alt_collect(proc, tier, which)
 
@@ -322,6 +324,39 @@ def load_code(desc):
         _CACHE.clear()
     _CACHE[key] = res
     return res
+
+
+def syn_table_bytes(entries):
+    out = []
+
+    def item(value, msb):
+        for shift in (24, 18, 12, 6):
+            if value >= (1 << shift):
+                out.append(((value >> shift) & 0x3F) | 0x40 | msb)
+                msb = 0
+        out.append((value & 0x3F) | msb)
+
+    for (start, size, target, depth, lasti) in entries:
+        item(start, 0x80)
+        item(size, 0)
+        item(target, 0)
+        item((depth << 1) | (1 if lasti else 0), 0)
+    return out
+
+
+def syn_table_descs(tier, seed, which):
+    rng = random.Random(seed * 7919 + 23)
+    n = 60 if tier == "quick" else 600
+    for k in range(n):
+        entries = []
+        # the model's table entries are in unary nat (code units): keep every field below 2^14, which still
+        # spans 1-, 2- and 3-byte varints with every parity of the top chunk
+        for _ in range(rng.randint(1, 4)):
+            start = rng.randrange(1 << rng.choice([5, 6, 7, 11, 12, 13, 14, 14]))
+            size = 1 + rng.randrange(1 << rng.choice([3, 6, 7, 12, 13]))
+            target = rng.randrange(1 << rng.choice([6, 12, 13, 14, 14]))
+            entries.append([start, size, target, rng.randrange(1 << rng.choice([1, 3, 5, 6, 8])), rng.random() < 0.5])
+        yield {"src": "syn", "_kind": "table", "which": which, "entries": entries}
 
 
 def ncaches(units, p):
@@ -494,6 +529,17 @@ def run_case(desc):
     if desc["_kind"] == "live":
         return run_live(desc)
 
+    if desc.get("src") == "syn":
+        # a synthetic exception table written exactly as CPython's assembler writes one
+        # (Python/assemble.c assemble_emit_exception_table_entry): fields far beyond what any corpus
+        # function reaches (3-, 4- and 5-byte varints), parsed by stackscope's own parser
+        raw = syn_table_bytes(desc["entries"])
+        fake = types.SimpleNamespace(co_exceptiontable=bytes(raw))
+        obs = {"what": "synthetic table %r" % (desc["entries"],), "bytes": list(raw)}
+        obs["parsed"] = [[s // 2, e // 2, t // 2, d, bool(l)] for (s, e, t, d, l) in ll._parse_exception_table(fake)]
+        ref = [[a, a + n - 1, t, d, bool(l)] for (a, n, t, d, l) in desc["entries"]]
+        obs["agrees_with_dis"] = ref == obs["parsed"]
+        return obs
     co, text = load_code(desc)
     obs = {"what": text if len(text) < 1500 else text[:1500]}
     if desc["_kind"] == "table":
